@@ -28,14 +28,42 @@ def _p(name, body):
 
 # docs/troubleshooting.md, "Broken strict total ordering": two distinct units of equal size
 _p("tie_units_anonymous_namespace", r"""
-namespace {
-struct Quartermin : decltype(Minutes{} / mag<4>()) {};
+namespace shop {
+struct Quartermin : decltype(Minutes{} / mag<4>()) {
+    static constexpr const char label[] = "qmin";
+};
+constexpr const char Quartermin::label[];
 constexpr auto quartermin = QuantityMaker<Quartermin>{};
-struct Fifteensec : decltype(Seconds{} * mag<15>()) {};
+}  // namespace shop
+namespace {
+struct Fifteensec : decltype(Seconds{} * mag<15>()) {
+    static constexpr const char label[] = "fsec";
+};
+constexpr const char Fifteensec::label[];
 constexpr auto fifteensec = QuantityMaker<Fifteensec>{};
 }  // namespace
 int main() {
-    std::printf("%d [%s] [%s]\n", int(quartermin(10) == fifteensec(10)), unit_label((quartermin(1) + fifteensec(1)).unit), unit_label(Quartermin{} * Fifteensec{}));
+    std::printf("%d [%s] [%s]\n", int(shop::quartermin(10) == fifteensec(10)), unit_label((shop::quartermin(1) + fifteensec(1)).unit), unit_label(shop::Quartermin{} * Fifteensec{}));
+    return 0;
+}
+""")
+
+_p("tie_units_template_spelling", r"""
+template <typename T>
+struct Tag {};
+template <typename T>
+struct Scaled : decltype(Seconds{} * mag<15>()) {
+    static constexpr const char label[] = "scaled";
+};
+template <typename T>
+constexpr const char Scaled<T>::label[];
+struct Plain : decltype(Minutes{} / mag<4>()) {
+    static constexpr const char label[] = "plain";
+};
+constexpr const char Plain::label[];
+int main() {
+    using A = Scaled<Tag<Tag<long>>>;
+    std::printf("[%s] [%s]\n", unit_label(A{} * Plain{}), unit_label(common_unit(Plain{}, A{})));
     return 0;
 }
 """)
